@@ -169,8 +169,30 @@ def c19_b(ctx: Ctx):
     elif ts:
         out.append(ctx.inc(R, f, ts[0], f"job directory derived with {canon(ts[0])[:40]}"))
     absn = [n for n in body_nodes(f) if isinstance(n, ast.Call) and common.ext_name(ctx, f, n) == "os.path.abspath"]
+    kn = GJ + "|normalised-before-match"
     if absn:
         out.append(ctx.ok(R, f, absn[0], "the query path is made absolute (no link resolution)"))
+        out.append(ctx.ok(R, f, absn[0], "the query path is normalised (os.path.abspath collapses '..') before job ids are searched in it", construct=kn))
+    else:
+        # a helper may do it: every return of the helper must be an os.path.abspath / normpath result
+        helpers = []
+        for c in body_nodes(f):
+            if isinstance(c, ast.Call):
+                for tq in common.targets_of(ctx, f, c):
+                    g = ctx.prog.funcs.get(tq)
+                    if g is not None and not g.module.is_dep and "path" in g.name.lower() and g.qual not in (GP, GJ):
+                        helpers.append((c, g))
+        good = [(c, g) for (c, g) in helpers if all(isinstance(r.value, ast.Call) and common.ext_name(ctx, g, r.value) in ("os.path.abspath", "os.path.normpath", "os.getcwd")
+                                                    for r in body_nodes(g) if isinstance(r, ast.Return) and r.value is not None)]
+        if good:
+            out.append(ctx.ok(R, f, good[0][0], f"the query path is normalised by {good[0][1].name}() before job ids are searched in it", construct=kn))
+        elif helpers:
+            c, g = helpers[0]
+            out.append(ctx.viol(R, f, c, f"get_job makes the query path absolute with {g.name}(), which does not collapse '..' components (not os.path.abspath / normpath on every return): the id "
+                                "pattern is then searched in the un-normalised text, so get_job('../..') from inside a job directory returns that job instead of raising LookupError", construct=kn))
+        else:
+            out.append(ctx.viol(R, f, f.node, "get_job searches job ids in the query path without normalising it (os.path.abspath): '..' components that lead out of a job directory are ignored",
+                                construct=kn))
     ret = [n for n in body_nodes(f) if isinstance(n, ast.Return) and isinstance(n.value, ast.Call)]
     for r in ret:
         idv = kwarg(r.value, "id_")
@@ -226,6 +248,46 @@ def c19_c(ctx: Ctx):
             out.append(ctx.viol(R, lf, probes[0], "the legacy-schema probe is executed for every directory on the way up, inside the loop that looks for a configuration: a directory with an old-layout "
                                 "signac.rc between the query path and an enclosing initialised project makes get_project raise IncompatibleSchemaVersion instead of returning that project",
                                 construct=LOC + "|probe-after-search"))
+    lc = ctx.prog.funcs.get("signac._config:_load_config")
+    kl = "signac._config:_load_config|project-local-last"
+    if lc is None:
+        out.append(ctx.inc(R, None, None, "_load_config not found", construct=kl))
+    else:
+        lcfg = ctx.cfg(lc)
+        merges = [n for n in lcfg.stmt_nodes() if n.kind == "stmt" and any(isinstance(c, ast.Call) and isinstance(c.func, ast.Attribute) and c.func.attr == "merge" for c in walk_no_nested(n.ast))]
+        verdict = None
+        for mnode in merges:
+            pml = ctx.parents(lc)
+            cur = pml.get(id(mnode.ast))
+            loop = None
+            while cur is not None:
+                if isinstance(cur, ast.For):
+                    loop = cur
+                    break
+                cur = pml.get(id(cur))
+            txt = canon(common.inline_at(ctx, lc, mnode.ast.value if isinstance(mnode.ast, ast.Expr) else mnode.ast, mnode.ast))
+            if loop is not None and isinstance(loop.iter, (ast.Tuple, ast.List)):
+                elts = [canon(e) for e in loop.iter.elts]
+                pi = [i for i, e in enumerate(elts) if "_get_project_config_fn" in e]
+                ui = [i for i, e in enumerate(elts) if "USER_CONFIG_FN" in e or "signacrc" in e]
+                if pi and ui and min(pi) < max(ui):
+                    verdict = ("viol", mnode, f"the files are merged in the order {elts}: the user's ~/.signacrc is merged after the project-local configuration")
+                elif pi and ui and verdict is None:
+                    later = [m2 for m2 in merges if m2 is not mnode and m2.id in lcfg.reachable([lcfg.node_ids_for(loop)[0]], kinds="n") and not any(m2.ast is x for x in ast.walk(loop))]
+                    verdict = ("viol", later[0], "another configuration is merged after the project-local one") if later else ("ok", mnode, "")
+            if "_get_project_config_fn" in txt and loop is None:
+                later = [m2 for m2 in merges if m2 is not mnode and m2.id in lcfg.reachable([mnode.id], kinds="n")]
+                if later:
+                    verdict = ("viol", later[0], "another configuration is merged after the project-local one")
+                elif verdict is None:
+                    verdict = ("ok", mnode, "")
+        if verdict and verdict[0] == "viol":
+            out.append(ctx.viol(R, lc, verdict[1].ast, f"{verdict[2]}; later merges override earlier ones, and every file is validated on its own (defaults filled in), so the user file's "
+                                "default schema_version overrides the project's: every project is refused as incompatible as soon as a ~/.signacrc exists", construct=kl))
+        elif verdict:
+            out.append(ctx.ok(R, lc, verdict[1].ast, "the project-local configuration is merged last and therefore wins", construct=kl))
+        else:
+            out.append(ctx.inc(R, lc, lc.node, "merge order of the configuration files not recognised", construct=kl))
     for q in (LOC, GP, GJ, "signac._config:_get_project_config_fn"):
         f = ctx.fn(q)
         mt = [c for c in body_nodes(f) if isinstance(c, ast.Call) and common.ext_name(ctx, f, c) in ("os.path.ismount",)]
